@@ -6,6 +6,7 @@ function, resynchronisation)."""
 import json
 import os
 import subprocess
+import sys
 
 from common import *
 
@@ -98,7 +99,27 @@ def run_chunker_check(prop, tier):
         if p.returncode != 0:
             raise ToolError("vh chunker-l1 failed (%d): %s" % (p.returncode, e.decode()[-2000:]))
         total += json.loads(o.decode().strip().splitlines()[-1])["runs"]
+    # process level (C10): chunk lists that the real `bita compress` records for pairs P1.S / P2.S of natural-chunk files, and the numbers `bita diff`
+    # prints for them (DIFF rules: beyond the list, counted only); judged by DiffTrace.tla
+    l2_verdicts, l2_summary, l2_runs = [], {"events": 0, "scenarios_ok": 0, "verdicts": 0}, 0
+    if prop == "C10":
+        build_cli()
+        dprocs, dtraces = [], []
+        for i in range(8):
+            tr = os.path.join(workdir, "diff_%d.ndjson" % i)
+            dtraces.append(tr)
+            dprocs.append(subprocess.Popen(["timeout", "2400", sys.executable, os.path.join(VERIF, "lib", "diff_l2.py"), "--out", tr, "--shard", str(i), "--bita", BITA,
+                                            "--dir", os.path.join(workdir, "difffs"), "--seed", str(seed()), "--count", "20" if tier == "quick" else "200"],
+                                           stdout=subprocess.PIPE, stderr=subprocess.PIPE, env=dict(os.environ, RUST_BACKTRACE="0")))
+        for p in dprocs:
+            o, e = p.communicate()
+            if p.returncode != 0:
+                raise ToolError("diff_l2 failed (%d): %s" % (p.returncode, e.decode()[-2000:]))
+            l2_runs += json.loads(o.decode().strip().splitlines()[-1])["runs"]
+        l2_verdicts, l2_summary = tlc_validate("DiffTrace", "DiffTrace.cfg", dtraces)
+        log("L2: %d bita compress / diff runs, %d pairs validated, %d accepted, %d verdicts" % (l2_runs, l2_summary["events"], l2_summary["scenarios_ok"], l2_summary["verdicts"]))
     verdicts, summary = tlc_validate("ChunkerTrace", "ChunkerTrace.cfg", traces, timeout=3000)
+    verdicts = verdicts + l2_verdicts
     log("%d chunker runs, %d events validated, %d accepted, %d verdicts" % (total, summary["events"], summary["scenarios_ok"], summary["verdicts"]))
     counts = {}
     for v in verdicts:
@@ -125,7 +146,7 @@ def run_chunker_check(prop, tier):
             samples.append(e)
     shutil.rmtree(workdir, ignore_errors=True)
     out.coverage = {"states": states, "transitions": trans, "traces_validated_against_impl": summary["scenarios_ok"] + summary["verdicts"],
-                    "chunker_runs": total, "trace_events_validated": summary["events"], "verdicts_all_properties": counts,
+                    "chunker_runs": total, "l2_process_runs": l2_runs, "l2_pairs_validated": l2_summary["events"], "trace_events_validated": summary["events"], "verdicts_all_properties": counts,
                     "model_checking_runs": mc_runs, "exhaustive": True,
                     "rule": "small scope: every string up to length %d over {0x00,0x01,0xA7} x window 1..3 x filter bits 1..2 x min 0..4 x max 2..6 x 3 algorithms, each under 3 read scripts; plus large random / constant / zero-run / repetitive streams (boundaries only)" % lmax,
                     "samples": samples}
